@@ -24,7 +24,8 @@ Op language (one op per line):
   least / greatest number the probe admitted over all rounds.  Whatever the schedule, the cells are back at 0 after the exits
   (`cell_eq_live`, `returns_to_zero` hold for every interleaving), so the probe admits exactly what one sequential round
   admits: the model runs one round sequentially and prints that number twice.  How many goroutines pass *during* a round is
-  not reported (the known check-then-act overshoot makes it schedule-dependent).  Must be the last op of its case; the
+  not reported (the known check-then-act overshoot makes it schedule-dependent).  With a trailing `x2` every admitted entry is
+  exited by two goroutines at the same moment: `Exit` is idempotent (`exit_twice`), so the line is the same.  Must be the last op of its case; the
   resource must carry concurrency rules only (a throttling rule would sleep on the single-threaded virtual clock).
 * `flowblock <res>` — a flow rule with threshold 0 on `res` (every entry there is blocked by the flow slot)
 * `entry <id> <res> [#batch] <val>… @key=val…` ⇒ `pass | block hot | block flow`
@@ -362,8 +363,9 @@ def stormModel (s : St) (res : String) (v : Val) (g : Nat) : Nat :=
 def stepModelW (s : St × Bool) (ts : List String) (line : String) : (St × Bool) × Option String :=
   if s.2 then (s, some "bad-op") else
   match ts with
-  | ["storm", res, kind, g, rounds] => match g.toNat?, rounds.toNat? with
+  | "storm" :: res :: kind :: g :: rounds :: x2 => match g.toNat?, rounds.toNat? with
     | some g, some _ =>
+      if !(x2 == [] || x2 == ["x2"]) then (s, some "bad-op") else
       if !stormOk s.1.tcs res s.1.fb || !s.1.live.isEmpty || !s.1.pend.isEmpty then (s, some "bad-op") else
       let a := stormModel s.1 res (stormVal kind) g
       ((s.1, true), some s!"lo={a} hi={a}")
@@ -380,8 +382,9 @@ def stormClaim (s : OSt) (res : String) (v : Val) (g : Nat) : Nat :=
 def stepOracleW (s : OSt × Bool) (ts : List String) (line : String) : (OSt × Bool) × Option String :=
   if s.2 then (s, some "bad-op") else
   match ts with
-  | ["storm", res, kind, g, rounds] => match g.toNat?, rounds.toNat?, resPart line with
+  | "storm" :: res :: kind :: g :: rounds :: x2 => match g.toNat?, rounds.toNat?, resPart line with
     | some g, some _, some got =>
+      if !(x2 == [] || x2 == ["x2"]) then (s, some "bad-op") else
       if !stormOk (s.1.rules.map fun o => { rule := o.rule }) res s.1.fb || !s.1.live.isEmpty || !s.1.pend.isEmpty
       then (s, some "bad-op") else
       let a := stormClaim s.1 res (stormVal kind) g
